@@ -594,7 +594,7 @@ func decodeMixed(c *Ctx, prop string, class int) {
 		case 3:
 			// the smallest thing of one kind, thousands of times: what it costs per copy must stay
 			// within the per-byte allowance
-			kind, sub := y.Intn(4), y.Intn(4)
+			kind, sub := y.Intn(7), y.Intn(4)
 			n := []int{300, 4000, 9000, 25000, 45000}[y.Intn(5)]
 			junk := []int{0, 16, 300, 1400}[y.Intn(4)]
 			if kind == 3 && n*junk > 3<<20 {
@@ -602,7 +602,12 @@ func decodeMixed(c *Ctx, prop string, class int) {
 			}
 			data = gengen.ManyTiny(kind, sub, n, junk)
 			name = fmt.Sprintf("manytiny(kind=%d sub=%d n=%d junk=%d)", kind, sub, n, junk)
-			e = harness.EntryByName([][]string{{"Decode", "DecodeHeif", "isobmff.Reader"}, {"PreviewCR3", "DecodeCR3", "isobmff.Reader"}, {"jpeg.ScanJPEG", "DecodeJPEG", "Decode"}, {"xmp.ParseXmp"}}[kind][y.Intn(3)%[]int{3, 3, 3, 1}[kind]])
+			if kind == 3 {
+				kind = 7 // (the date packets are ManyTiny's default branch)
+			}
+			ents := map[int][]string{0: {"Decode", "DecodeHeif", "isobmff.Reader"}, 1: {"PreviewCR3", "DecodeCR3", "isobmff.Reader"}, 2: {"jpeg.ScanJPEG", "DecodeJPEG", "Decode"}, 7: {"xmp.ParseXmp"},
+				4: {"Decode", "DecodeCR3", "isobmff.Reader"}, 5: {"DecodeJPEG", "Decode", "jpeg.ScanJPEG"}, 6: {"xmp.ParseXmp"}}[kind]
+			e = harness.EntryByName(ents[y.Intn(3)%len(ents)])
 		}
 		hi = len(data)
 	} else if class == 6 {
